@@ -20,6 +20,8 @@ pub fn run(args: &[String]) {
         Some("consts") => consts(),
         Some("new") => new_cmd(),
         Some("parse") => parse_cmd(args),
+        Some("parsein") => parsein_cmd(),
+        Some("newprop") => newprop_cmd(),
         Some("setmasks") => setmasks_cmd(args),
         Some("plan") => plan_cmd(args),
         Some("api") => api_cmd(args),
@@ -90,6 +92,55 @@ fn new_cmd() {
             Err(e) => println!("new {} {} {} -> panic {}", form, a, b, e),
         }
     }
+}
+
+/// Implementation-level predicate for Feature::new: the feature acts (through the real set_masks) on
+/// cluster c iff the Rust range contains c. One line per deviation; clusters stay below u32::MAX
+/// (u32::MAX is the "end of text" sentinel of the range encoding, see the evidence note).
+fn newprop_cmd() {
+    let mut evals = 0u64;
+    let mut nontrivial = 0u64;
+    let mut bad = 0u64;
+    let cl: Vec<u32> = vec![0, 1, 2, 3, 4, 5, 6, 7, (1 << 31) - 1, 1 << 31, u32::MAX - 2, u32::MAX - 1];
+    let bs = bounds();
+    let mut cases: Vec<(u8, usize, usize)> = Vec::new();
+    for form in 0..6u8 {
+        for a in 0..=7usize {
+            for b in 0..=7usize {
+                cases.push((form, a, b));
+            }
+        }
+        for &a in &bs {
+            for &b in &bs {
+                cases.push((form, a, b));
+            }
+        }
+    }
+    for (form, a, b) in cases {
+        let f = match catch(move || feature_new(form, a, b, 1)) {
+            Ok(f) => f,
+            Err(e) => {
+                bad += 1;
+                println!("newdev form={} a={} b={} panic={}", form, a, b, e);
+                continue;
+            }
+        };
+        let glyphs: Vec<(u32, u32)> = cl.iter().map(|c| (*c, 0)).collect();
+        let out = hook::set_masks(&glyphs, 0x10, 0x10, f.start, f.end);
+        for (i, c) in cl.iter().enumerate() {
+            evals += 1;
+            let acts = out[i] != 0;
+            let want = in_range(form, a, b, *c as usize);
+            if want {
+                nontrivial += 1;
+            }
+            if acts != want {
+                bad += 1;
+                println!("newdev form={} a={} b={} c={} start={} end={} acts={} in_range={}", form, a, b, c, f.start, f.end, acts as u8, want as u8);
+            }
+        }
+    }
+    println!("newprop-summary evaluations={} nontrivial={} bad={}", evals, nontrivial, bad);
 }
 
 fn witness_cmd(args: &[String]) {
@@ -249,6 +300,19 @@ fn parse_one(s: &str) {
         Ok(Some(f)) => println!("parse {} -> {} {} {} {}", hex(s.as_bytes()), f.tag.0, f.value, f.start, f.end),
         Ok(None) => println!("parse {} -> none", hex(s.as_bytes())),
         Err(e) => println!("parse {} -> panic {}", hex(s.as_bytes()), e),
+    }
+}
+
+/// stdin: one hex-encoded string per line ("-" = empty)
+fn parsein_cmd() {
+    use std::io::BufRead;
+    for line in std::io::stdin().lock().lines().flatten() {
+        let l = line.trim();
+        let bytes: Vec<u8> = if l == "-" { Vec::new() } else { (0..l.len() / 2).filter_map(|i| u8::from_str_radix(&l[2 * i..2 * i + 2], 16).ok()).collect() };
+        match String::from_utf8(bytes) {
+            Ok(s) => parse_one(&s),
+            Err(_) => println!("parse {} -> notutf8", l),
+        }
     }
 }
 
@@ -694,7 +758,7 @@ fn plan_line(label: &str, face: &Face, dir: Direction, script: Option<rustybuzz:
         Ok(d) => {
             let infos: Vec<String> = d.infos.iter().map(|(t, s, m, f, dv, fd)| format!("{}:{}:{}:{}:{}:{}", fmt_tag(*t), s, m, f, dv, *fd as u8)).collect();
             let fs: Vec<String> = d.features.iter().map(|(t, s, m, o)| format!("{}:{}:{}:{}", fmt_tag(*t), s, m, o)).collect();
-            let um: Vec<String> = feats.iter().zip(d.user_masks.iter()).map(|(f, (m, s))| format!("{}:{}:{}", f.tag.0, m, s)).collect();
+            let um: Vec<String> = feats.iter().zip(d.user_masks.iter()).map(|(f, (m, s))| format!("{}:{}:{}:{}:{}", f.tag.0, m, s, f.value, (f.start == 0 && f.end == u32::MAX) as u8)).collect();
             println!(
                 "plan {} simple={} infos={} gm={} feats={} um={}",
                 label,
